@@ -31,7 +31,8 @@ THEOREMS = [
     "KrroodVerif.Eql.C10_continuity_rows",
     "KrroodVerif.Eql.C10_continuity_trace",
 ]
-MODEL_FUNCTION = "Eql.traceQuery / Eql.traceE / Eql.uptoRow / Eql.pulled (Model/EqlTrace.lean)"
+MODEL_FUNCTION = ("Eql.traceQuery / Eql.traceE / Eql.uptoRow / Eql.pulled (Model/EqlTrace.lean); Eql.traceExistsRoot / "
+                  "Eql.traceForAllRoot (Model/EqlTraceQ.lean)")
 TRUSTED = [
     "Lean 4.33 kernel; axioms of each theorem listed under coverage.theorems",
     "hand-written trace model Model/EqlTrace.lean (continuation-passing transcription of symbolic.py evaluation)",
@@ -39,9 +40,10 @@ TRUSTED = [
 ]
 ASSUMPTIONS = [
     "CPython generator protocol: a suspended generator performs no work until next() is called",
-    "queries are tree-shaped and quantifier-free (exists/for_all consume whole condition streams by design)",
+    "queries are tree-shaped; quantifiers occur at the root of the condition over a quantifier-free body (Model/EqlTraceQ.lean: "
+    "exists streams, for_all stops pulling once no candidate is left) or not at all",
 ]
-RULE = ("corpus, then random quantifier-free condition trees (depth<=3, 1-3 variables, int/object domains as one-shot "
+RULE = ("corpus, then random root-level exists/for_all over quantifier-free bodies and random quantifier-free condition trees (depth<=3, 1-3 variables, int/object domains as one-shot "
         "logging generators); each query is rebuilt and consumed for every k in 0..n+1; non-trivial = the query has "
         ">=2 results and some domain is not fully pulled at k=1; distinct by case text")
 
@@ -81,12 +83,37 @@ def generate(rng, tier, n):
         lit = sorted(rng.sample(range(0, 4), rng.randrange(1, 3)))
         line = "(flat (objs " + " ".join("(" + " ".join(map(str, xs)) + ")" for xs in objs) + ") (lit " + " ".join(map(str, lit)) + "))"
         out.append(Case(line, ("flatten-generator",), "random"))
+    # a quantifier at the root over a quantifier-free body: exists hands a witness on the moment it is found, for_all
+    # stops pulling the universal variable once no candidate is left
+    for _ in range(max(60, n // 5)):
+        q = gen_root_quantifier(rng)
+        tags = ["root-" + q["cond"][0], "nsel%d" % len(q["sel"]), "nvars%d" % len(q["doms"])] + sorted(set(G.cond_ops(q["cond"])))
+        out.append(Case(G.sx_query(q), tuple(tags), "random", q))
     while len(out) < n:
         q = G.gen_query(rng, quantifiers=False)
         ops = G.cond_ops(q["cond"])
         tags = ["depth%d" % G.cond_depth(q["cond"]), "nsel%d" % len(q["sel"]), "nvars%d" % len(q["doms"])] + sorted(set(ops))
         out.append(Case(G.sx_query(q), tuple(tags), "random", q))
     return out
+
+
+def gen_root_quantifier(rng):
+    nv = rng.choice([1, 1, 2])
+    vs = ["x", "y"][:nv]
+    falsy = rng.random() < 0.4
+    lo = 0 if falsy else 1
+    while True:
+        kinds, objs, doms = G.gen_world(rng, vs + ["u"], falsy=falsy, max_objs=5)
+        if doms["u"]:
+            break
+    G.EXT["index_ok"] = False
+    # the quantified variable is bound by the first conjunct in every result of the body
+    head = G.gen_atom(rng, vs + ["u"], kinds, lo, must="u")
+    depth = rng.randrange(0, 3)
+    body = head if rng.random() < 0.25 else ("and", head, G.gen_cond(rng, vs + ["u"], kinds, depth, [], lo, allow_q=False))
+    kind = rng.choice(["exists", "forall"])
+    sel = [("var", v) for v in rng.sample(vs, rng.randrange(1, nv + 1))]
+    return {"sel": sel, "cond": (kind, "u", body), "objs": objs, "doms": doms, "kinds": kinds}
 
 
 def revive(case: Case) -> Case:
@@ -109,6 +136,14 @@ def nontrivial(case: Case, spec: str) -> bool:
         return True
     if case.line.startswith("(flat"):
         return not spec.startswith("n=0 ")
+    if "(forall " in case.line and case.line.count("(forall ") == 1 and "(cond (forall " in case.line:
+        # root-level for_all: non-trivial = the universal variable's domain (variable id 3, listed last) was NOT
+        # exhausted, i.e. the early exit was taken with values left
+        end = re.search(r"end:\[([^\]]*)\]", spec)
+        dom = re.search(r"\(doms .*\(3((?: \([^()]*\))*)\)", case.line)
+        if not end or not dom:
+            return False
+        return int(end.group(1).split(",")[-1]) < dom.group(1).count("(")
     m = re.match(r"n=(\d+) ", spec)
     if not m or int(m.group(1)) < 2:
         return False
